@@ -33,9 +33,32 @@ def handle (inp out : Sexp) : CaseResult :=
           (match spec, impl with | some s, .ok m => showDiff s m ++ s!" unitary={isUnitaryF tolSpec m}"
                                  | some _, r => s!"spec defined, impl {resShow r}" | none, _ => "n/a") }
     | _, _, _ => .bad "undecodable unitary case"
+  | .list [.atom "unitary2", g, .atom n] =>
+    -- `to_unitary(&mut self)` twice on the same value: the second call sees the consumed gate
+    match decodeGate g, n.toNat?, out with
+    | some g, some n, .list [.atom "twice", o1, o2] =>
+      match decodeRes o1, decodeRes o2 with
+      | some impl1, some impl2 =>
+        let m1 := resOfModel (toUnitary g n)
+        let firstOk := match impl1 with | .ok _ => true | _ => false
+        -- only after a successful first call is the consumed state fully determined
+        let m2 := resOfModel (toUnitary g.consumed n)
+        let agree := resAgree tolAgree m1 impl1 && (!firstOk || resAgree tolAgree m2 impl2)
+        let spec1 := gateSpec g n
+        let spec2 := gateSpec g.consumed n
+        let ok (s : Option M) (r : Res) : Bool := match s, r with
+          | some s, .ok m => closeMat tolSpec s m && isUnitaryF tolSpec m
+          | some _, _ => false
+          | none, _ => true
+        { agree := agree, specOk := ok spec1 impl1 && (!firstOk || ok spec2 impl2),
+          nontrivial := spec1.isSome && !g.mods.isEmpty,
+          tags := ["twice", modsTag g.mods, s!"g-{g.name}", s!"n{n}", resTag impl1, "second-" ++ resTag impl2],
+          detail := s!"first: {resDiff m1 impl1}; second: {resDiff m2 impl2}" }
+      | _, _ => .bad "undecodable unitary2 result"
+    | _, _, _ => .bad "undecodable unitary2 case"
   | .list [.atom "prog", .atom n, .list (.atom "instrs" :: is)] =>
     match decodeAll decodeInstr is, n.toNat?, out with
-    | some is, some n, .list [.atom "progres", r1, d] =>
+    | some is, some n, .list [.atom "progres", r1, d, r3] =>
       match decodeRes r1 with
       | none => .bad "undecodable program result"
       | some impl =>
@@ -66,9 +89,11 @@ def handle (inp out : Sexp) : CaseResult :=
           | some s, .ok m => closeMat tolSpec s m && isUnitaryF tolSpec m
           | some _, _ => false
           | none, _ => true
-        { agree := agree1 && agree2, specOk := specOk1 && dagOk, nontrivial := spec.isSome && gates.length ≥ 2,
+        -- `to_unitary(&self)` called again after `dagger()` returns the very same result
+        let stable := r1 == r3
+        { agree := agree1 && agree2 && stable, specOk := specOk1 && dagOk && stable, nontrivial := spec.isSome && gates.length ≥ 2,
           tags := ["prog", s!"len{is.length}", s!"n{n}", resTag impl, dagTag, if spec.isSome then "spec" else "nospec"],
-          detail := s!"unitary model-vs-impl: {resDiff model impl}; agreeDagger={agree2}; daggerAdjoint={dagOk}; spec: " ++
+          detail := s!"unitary model-vs-impl: {resDiff model impl}; agreeDagger={agree2}; daggerAdjoint={dagOk}; secondCallSame={stable}; spec: " ++
             (match spec, impl with | some s, .ok m => showDiff s m | _, _ => "n/a") }
     | _, _, _ => .bad "undecodable program case"
   | .list [.atom "api", g, .list (.atom "ops" :: ops)] =>
